@@ -33,7 +33,9 @@ var substs = map[string]subst{
 }
 
 // per-file substitutions (file base name -> selector -> replacement)
-var fileSubsts = map[string]map[string]subst{}
+var fileSubsts = map[string]map[string]subst{
+	"tcpdialer.go": {"net.Dialer": {"simnet", "verif/simrt/simnet", "Dialer"}},
+}
 
 var sharedImporter types.Importer
 
